@@ -49,6 +49,22 @@ pub fn fixed_point(x: &[u8], a: Fmt, b: Fmt, m1: &Mode, m2: &Mode, has_f32: bool
     }
     let o2 = run_mode(&o1.out, m2, if detect_second { None } else { Some(b) }, b);
     acc.count(&format!("fixed_point_{}_{}", a.name(), b.name()));
+    if detect_second && b != Fmt::Toml && o2.verdict.is_ok() {
+        // the same detected second hop on a Translator that has just translated (and detected) an input of
+        // another format: what it remembers of that input must not change how it reads its own output
+        let (wname, warm) = crate::run::WARM_UPS[(x.len() / 4) % crate::run::WARM_UPS.len()];
+        let o3 = crate::run::run_after(&[warm], &o1.out, m2, None, b);
+        acc.count("fixed_point_second_hop_on_a_warmed_up_translator");
+        if !o3.verdict.is_ok() || o3.out != o2.out {
+            acc.violation(Violation {
+                sig: format!("fixed point {}->{}->{}: the detected second hop depends on what the translator saw before (after {wname})", a.name(), b.name(), b.name()),
+                case: case_json(x, a, b, m1, m2, &format!("i-detected-after-{wname}")),
+                observed: format!("o = [{}]; after a detected {wname} input xt(->{})(o) = {} [{}]; on a fresh translator [{}]", preview(&o1.out, 160), b.name(), o3.verdict.show(), preview(&o3.out, 160), preview(&o2.out, 160)),
+                expected: "the same bytes as on a fresh translator".into(),
+            });
+            return true;
+        }
+    }
     if !o2.verdict.is_ok() || o2.out != o1.out {
         // Known finding: a binary32 value is written to a text format with the
         // shortest binary32 digits; read back it is a binary64 and is written with
@@ -226,9 +242,9 @@ pub fn run(ctx: &Ctx) -> i32 {
             }
         }
     });
-    let rule = format!("{} generated common-model documents x 16 ordered pairs (A,B) x both clauses, with slice/reader chosen independently at each hop and conventional or hostile spelling of the input; plus per document one extension document (binary, f32, non-finite floats, non-string keys) from MessagePack and YAML to every B for clause (i), and TOML date-time documents; documents xt cannot translate to B are skipped for clause (i) as the property says; distinct non-trivial = distinct documents with a hostile-class scalar or depth >= 3", n);
+    let rule = format!("{} generated common-model documents x 16 ordered pairs (A,B) x both clauses, with slice/reader chosen independently at each hop and conventional or hostile spelling of the input; plus per document one extension document (binary, f32, non-finite floats, non-string keys) from MessagePack and YAML to every B for clause (i), and TOML date-time documents; one second hop in four is left to detection, and then repeated on a translator that has just translated a detected input of another format (the bytes must be those of a fresh translator); documents xt cannot translate to B are skipped for clause (i) as the property says; distinct non-trivial = distinct documents with a hostile-class scalar or depth >= 3", n);
     ev::finish(
-        Finish { ctx, level: "exploration", rule, assumptions: vec!["no reference implementation: xt is compared with itself".into()], extra: serde_json::Map::new(), exhaustive: false, min_distinct: 500, must_reach: vec![("heavy_documents".into(), 10), ("extension_documents_translatable".into(), 100), ("toml_datetime_documents".into(), 10)] },
+        Finish { ctx, level: "exploration", rule, assumptions: vec!["no reference implementation: xt is compared with itself".into()], extra: serde_json::Map::new(), exhaustive: false, min_distinct: 500, must_reach: vec![("fixed_point_second_hop_on_a_warmed_up_translator".into(), 1000), ("heavy_documents".into(), 10), ("extension_documents_translatable".into(), 100), ("toml_datetime_documents".into(), 10)] },
         acc,
     )
 }
